@@ -495,6 +495,63 @@ fn c18_judge(case: &Case, run: &Run, an: &Analysis, stats: &mut Stats) -> CheckR
   fail_on(an, &["missing-exec", "bu-missing-schedule", "bu-leftover", "I2-verdict", "bu-verdict", "incomplete-validation", "c01-output", "c01-state"])
 }
 
+fn faultable_pairs(p: &Program) -> Vec<(ResId, RChk)> {
+  fn walk(b: &[Stmt], out: &mut Vec<(ResId, RChk)>) {
+    for s in b {
+      match s {
+        Stmt::Read { res, chk, faulty: true, .. } | Stmt::Write { res, chk, faulty: true, .. } => {
+          let ids: Vec<ResId> = match res { Target::Fixed(r) => vec![*r], Target::Dyn { base, span, .. } => (*base..*base + *span).collect() };
+          for r in ids { if !out.contains(&(r, *chk)) { out.push((r, *chk)); } }
+        }
+        Stmt::If { then, els, .. } => { walk(then, out); walk(els, out); }
+        _ => {}
+      }
+    }
+  }
+  let mut v = vec![];
+  for t in &p.tasks { walk(&t.body, &mut v); }
+  v
+}
+
+/// Fault enumeration: for sampled cases with at most 6 faultable (resource, checker) pairs, every subset of them is armed
+/// before the last session of the history.
+fn c18_extra(spec: &Spec, tier: Tier, seed: u64, known: &Known, report: &mut Report) {
+  use proptest::strategy::{Strategy, ValueTree};
+  let n_cases = match tier { Tier::Quick => 400, Tier::Thorough => 8000 };
+  let cfg = (spec.cfg)(tier);
+  let strategy = spec_strategy(spec, cfg);
+  let rng = proptest::test_runner::TestRng::from_seed(proptest::test_runner::RngAlgorithm::ChaCha, &driver::derive_seed(seed, "C18/enum", 0));
+  let mut runner = proptest::test_runner::TestRunner::new_with_rng(proptest::test_runner::Config::default(), rng);
+  let mut subsets = 0u64;
+  let mut cases_enumerated = 0u64;
+  let mut stats = Stats::new();
+  for _ in 0..n_cases {
+    let Ok(tree) = strategy.new_tree(&mut runner) else { continue; };
+    let case = tree.current();
+    let pairs = faultable_pairs(&case.prog);
+    if pairs.is_empty() || pairs.len() > 6 { continue; }
+    let Some(pos) = case.hist.steps.iter().rposition(|s| matches!(s, Step::Session { .. })) else { continue; };
+    if pos == 0 { continue; }
+    cases_enumerated += 1;
+    for mask in 0u32..(1 << pairs.len()) {
+      let faults: Vec<(ResId, RChk)> = pairs.iter().enumerate().filter(|(i, _)| mask & (1 << i) != 0).map(|(_, p)| *p).collect();
+      let mut c = case.clone();
+      c.hist.steps.insert(pos, Step::SetFaults { faults });
+      subsets += 1;
+      stats.evaluations += 1;
+      if let Err(f) = driver::guarded(|| check(spec, &c, &mut stats)) {
+        if known.attributed(&f).is_some() { continue; }
+        report.violation("case", &serde_json::to_value(&c).unwrap(), &f, &pretty_case(&c));
+        report.stats.merge(stats);
+        return;
+      }
+    }
+  }
+  report.stats.merge(stats);
+  report.extra.insert("fault_subsets_enumerated".into(), json!(subsets));
+  report.extra.insert("cases_with_all_fault_subsets".into(), json!(cases_enumerated));
+}
+
 pub const C18: Spec = Spec {
   prop: "C18",
   level: "fault_enumeration",
@@ -505,7 +562,7 @@ pub const C18: Spec = Spec {
   opts: Opts::default,
   quick: (8, 15000),
   thorough: (16, 250000),
-  extra: None,
+  extra: Some(c18_extra),
   strategy: None,
   assumptions: &["only `check` fails, stamp methods never do (P9)"],
 };
